@@ -476,14 +476,14 @@ Definition run (c : val) : val :=
       else if String.eqb fam "conc" then
         (* a sequence of whole transactions: no overlap seen by the peer, every caller gets its own reply, all complete *)
         (match args with
-         | [VS _; VL ops; VN _] => VL [VN 0; VL (map (fun _ => VS "ok") ops); VN (N.of_nat (List.length ops))]
+         | [VS _; VL ops; VN _; VN _] => VL [VN 0; VL (map (fun _ => VS "ok") ops); VN (N.of_nat (List.length ops))]
          | _ => verror "args" end)
       else if String.eqb fam "conc-spec" then
         (match args with
-         | [VS _; VL ops; VN _; VL [VN overlaps; VL results; VN completed]] =>
+         | [VS _; VL ops; VN _; VN _; VL [VN overlaps; VL results; VN completed]] =>
              vbool ((overlaps =? 0) && forallb (fun r => match r with VS "ok" => true | _ => false end) results
                     && (completed =? N.of_nat (List.length ops)))
-         | [_; _; _; _] => VS "false"
+         | [_; _; _; _; _] => VS "false"
          | _ => verror "args" end)
       else if String.eqb fam "race" then (match args with [VL toks] => race_run toks | _ => verror "args" end)
       else if String.eqb fam "race-spec" then race_spec args
